@@ -56,17 +56,36 @@ func poolAddr() sdk.AccAddress { return addr(model.CommunityPool) }
 // amount bit width of symbolic amounts and prices in the current tier
 func amtBits() int { return nd.Param("bits", 100) }
 
+// hugeFlags collects, per path, "this symbolic quantity is >= 2^128" for every amount
+// and price created through the helpers below (used by the extreme-amount tier of C07).
+var hugeFlags []bool
+
+func noteMagnitude(isHuge bool) {
+	if amtBits() > 128 {
+		hugeFlags = append(hugeFlags, isHuge)
+	}
+}
+
+// anyHuge: some amount or raw price of the state is >= 2^128.
+func anyHuge() bool { return nd.Or(hugeFlags...) }
+
 func posInt(name string) math.Int {
 	v := nd.IntN(name, amtBits())
 	nd.Assume(v.IsPositive())
+	noteMagnitude(nd.ZInt(v).GE(nd.ZStr("340282366920938463463374607431768211456")))
 	return v
 }
 
-func nonnegInt(name string) math.Int { return nd.IntN(name, amtBits()) }
+func nonnegInt(name string) math.Int {
+	v := nd.IntN(name, amtBits())
+	noteMagnitude(nd.ZInt(v).GE(nd.ZStr("340282366920938463463374607431768211456")))
+	return v
+}
 
 func posDec(name string) math.LegacyDec {
 	v := nd.DecN(name, amtBits())
 	nd.Assume(v.IsPositive())
+	noteMagnitude(nd.ZDec(v).GE(nd.ZStr("340282366920938463463374607431768211456")))
 	return v
 }
 
